@@ -187,6 +187,7 @@ def task_reference(t):
             return {"status": "empty"}
         nref = ref[-1][0]
         traj, lst, _L = _with_deadline(lambda: I.learner_trajectory(mem, tol, nref, 4 * nref + 100), 25.0)
+        zero_refined = I.zero_refined_intervals(_L)
     except RunTimeout:
         return {"status": "timeout"}
     if lst == "internal":
@@ -196,7 +197,7 @@ def task_reference(t):
     by = {}
     for (n, d, ig, er, dn) in traj:
         by[n - d] = (n, d, ig, er, dn)
-    res = {"status": "ok", "done_compared": 0, "done_agree": 0, "done_mismatch": None, "ref_status": rst, "learner_status": lst, "states": 0, "literal": 0, "aligned_dup": 0,
+    res = {"status": "ok", "zero_refined": zero_refined, "done_compared": 0, "done_agree": 0, "done_mismatch": None, "ref_status": rst, "learner_status": lst, "states": 0, "literal": 0, "aligned_dup": 0,
            "repo_ok": 0, "tight_ok": 0, "dup_agree": 0, "mismatch": None, "worst_rel": 0.0,
            "divergent_ref": rst == "divergent", "divergent_learner": lst == "divergent"}
     for k, (nr, ig, er, niv) in enumerate(ref, 1):
@@ -204,7 +205,6 @@ def task_reference(t):
             break
         if niv > 150:              # algorithm_4 drops intervals above 200, the learner above 1000
             break
-        res["zero_intervals_seen"] = res.get("zero_intervals_seen", 0)
         n, d, lig, ler, ldone = by[nr]
         res["states"] += 1
         ref_done = rst == "finished" and k == len(ref)
@@ -625,7 +625,7 @@ def run(chk: Check) -> int:
             rmetas.append((fam, params, tol))
     with cf.ProcessPoolExecutor(max_workers=14, mp_context=ctx) as ex:
         rres = list(ex.map(task_reference, rtasks, chunksize=2))
-    ref.update(done_compared=0, done_agree=0, internal_errors=0)
+    ref.update(done_compared=0, done_agree=0, internal_errors=0, members_with_refined_all_zero_interval=0)
     for (fam, params, tol), r in zip(rmetas, rres):
         if r["status"] != "ok":
             ref["timeouts"] += r["status"] == "timeout"
@@ -635,6 +635,7 @@ def run(chk: Check) -> int:
                 if sig not in first_fail:
                     first_fail[sig] = (fam, params, tol, "seq1", {"verdict": "divergent", "n": r["evaluations"], "ops": None})
             continue
+        ref["members_with_refined_all_zero_interval"] += bool(r["zero_refined"])
         ref["done_compared"] += r["done_compared"]
         ref["done_agree"] += r["done_agree"]
         ref["members"] += 1
@@ -660,8 +661,9 @@ def run(chk: Check) -> int:
                 first_fail[sig] = (fam, params, tol, "reference", {"what": r["done_mismatch"], "kind": "reference_done",
                                                                     "loops": loops})
     chk.extra["reference_algorithm_4"] = ref
-    if ref["states_compared_literal"] < 3 * len(rtasks):
-        chk.broke("vacuity", "the comparison with tests/algorithm_4.py compared too few states", ref)
+    if ref["states_compared_literal"] < 3 * len(rtasks) or ref["members_with_refined_all_zero_interval"] < 8:
+        chk.broke("vacuity", "the comparison with tests/algorithm_4.py compared too few states (or met too few intervals on "
+                  "which the integrand vanishes identically)", ref)
     chk.log(f"reference: {ref['members']} members, {ref['states_compared_literal']} states compared, "
             f"{ref['agree_repo_tolerance']} agree (repo tolerance), {ref['agree_rel_1e-12']} to 1e-12")
 
